@@ -173,7 +173,7 @@ def norm_tree(t):
     d = {}
     for k, v in t.items():
         name = bytes.fromhex(k).hex().upper()
-        d[name] = norm_tree(v) if isinstance(v, dict) else (bytes.fromhex(v) if isinstance(v, str) else bytes(v))
+        d[name] = norm_tree(v) if hasattr(v, 'items') else (bytes.fromhex(v) if isinstance(v, str) else bytes(v))
     return d
 
 
@@ -181,7 +181,7 @@ def ref_encode(t, simple):
     out = b""
     for k, v in t.items():
         tag = bytes.fromhex(k)
-        val = ref_encode(v, simple) if isinstance(v, dict) else (bytes.fromhex(v) if isinstance(v, str) else bytes(v))
+        val = ref_encode(v, simple) if hasattr(v, 'items') else (bytes.fromhex(v) if isinstance(v, str) else bytes(v))
         out += tag + (bytes([len(val)]) if simple else gens.ber_len(len(val))) + val
     return out
 
@@ -193,7 +193,7 @@ def has_dup_tags(t):
         if n in seen:
             return True
         seen.add(n)
-        if isinstance(v, dict) and has_dup_tags(v):
+        if hasattr(v, 'items') and has_dup_tags(v):
             return True
     return False
 
@@ -220,6 +220,11 @@ def C10(ctx):
                 c = op_encode(t, simple, gen="boundary value lengths")
                 cases.append(c); wf.append((t, simple))
     ctx.exhaustive_dims.append(f"value / template-content lengths {lens} × {{normal, simple}} × bytes/bytearray/str/nested")
+    # the 2^24 boundary of the length field, on the real code only (reference encoder in Python)
+    for n in (2 ** 24 - 1, 2 ** 24, 2 ** 24 + 1):
+        v = bytes(n)
+        wf.append(({"9C": v}, False))
+        wf.append(({"E0": {"9F02": v[: n - 6]}}, False))
     for _ in range(ctx.n(5000, 60000)):
         simple = R.random() < .35
         t = gens.gen_tree(R, R.choice([0, 1, 2, 3, 4, 6]), simple, boundary=R.random() < .2, big=R.random() < .01)
@@ -265,13 +270,13 @@ def C10(ctx):
 def _order(d):
     for k, v in d.items():
         yield k
-        if isinstance(v, dict):
+        if hasattr(v, 'items'):
             yield from _order(v)
 
 
 def _key_in(t, k):
     for kk, v in t.items():
-        if kk == k or (isinstance(v, dict) and _key_in(v, k)):
+        if kk == k or (hasattr(v, 'items') and _key_in(v, k)):
             return True
     return False
 
@@ -335,7 +340,7 @@ def C18(ctx):
             conv = tlv.decode(x, flatten=flat, simple=simple, convert=rec)
             plain = tlv.decode(x, flatten=flat, simple=simple)
             def mp_(d):
-                return {k: (mp_(v) if isinstance(v, dict) else bytes.fromhex(k) + b":" + v) for k, v in d.items()}
+                return {k: (mp_(v) if hasattr(v, 'items') else bytes.fromhex(k) + b":" + v) for k, v in d.items()}
             ok = conv == mp_(plain)
             if items is not None:
                 ok = ok and rec.log == list(gens.cst_prims(items))
